@@ -216,7 +216,8 @@ const FramesPerSegment = 8
 type callFrameStackSegment struct {
 	array [FramesPerSegment]callFrame
 }
-type segIdx uint16
+// segIdx indexes the segments of a call stack: CallStackSize/FramesPerSegment of them, which can exceed 16 bits
+type segIdx int
 type autoGrowingCallFrameStack struct {
 	segments []*callFrameStackSegment
 	segIdx   segIdx
